@@ -148,7 +148,8 @@ def check_history(res, rng, files):
             # the object serving the next requests is a COPY of the configured one (copy.copy / copy.deepcopy: a template
             # with the display options, one derived object per listing); the settings changed on it are its own, so the
             # lists are re-assigned, never edited in place, right after a shallow copy
-            p = copy.copy(p) if rng.random() < 0.6 else copy.deepcopy(p)
+            import pickle
+            p = copy.copy(p) if rng.random() < 0.5 else copy.deepcopy(p) if rng.random() < 0.5 else pickle.loads(pickle.dumps(p))
             p.filter_class, p.filter_subclass = copy.copy(p.filter_class), copy.copy(p.filter_subclass)
             res.count('history_objects_derived_by_copy')
         # a caller changes any non-empty subset of the three settings, in any order; what it leaves alone stays as set
